@@ -4,10 +4,10 @@
 #  the demo fails with the patch and passes without it. Writes /verif/seeded/<ID>/{patch.diff,demo_test.go,notes.md,verify.log}
 ID=$1; DEMO_DIR=$2; SRC=${3:-/tmp/seed/out/$ID}
 export GOFLAGS=-mod=mod GOPROXY=off GOSUMDB=off GOTOOLCHAIN=local
-W=/tmp/seedv/$ID
+W=/tmp/seedv/${4:-$ID}
 rm -rf $W; mkdir -p /tmp/seedv
 git -C /repo worktree add -q --detach $W HEAD || exit 2
-OUT=/verif/seeded/$ID; mkdir -p $OUT
+OUT=/verif/seeded/${4:-$ID}; mkdir -p $OUT
 LOG=$OUT/verify.log; : > $LOG
 cd $W
 if ! git apply $SRC/patch.diff 2>>$LOG; then echo "$ID: PATCH DOES NOT APPLY" | tee -a $LOG; git -C /repo worktree remove --force $W; exit 1; fi
